@@ -1,2 +1,3 @@
 import Props.C03
+import Props.C04
 import Props.C17
